@@ -660,7 +660,76 @@ def run_readonly_carry(ctx, i, rng):
                 lambda: dict(case=desc, upd=repr(upd)[:200]))
 
 
+def run_attr_body(ctx, i, rng):
+  """The scanned / vmapped body receives its sub-layers as dataclass attributes (injected layers), declared in an order that is not
+  alphabetical; several scopes are lifted together and every attribute keeps its own variables: the result equals the loop / the
+  per-example stack that runs the same body on the same variables."""
+  import jax
+  import jax.numpy as jnp
+  import flax.linen as nn
+  tr = ['scan_broadcast', 'scan_axis', 'vmap_axis', 'vmap_shared'][i % 4]
+  order = [('proj', 'gate'), ('gate', 'proj'), ('trunk', 'head', 'aux')][(i // 4) % 3]
+  reverse = (i // 12) % 2 == 1
+  D, N = 3, 3 + (i // 24) % 2
+  desc = dict(transform=tr, fields=order, reverse=reverse, n=N)
+  with ctx.case('attr_body', i, desc, nontrivial=list(order) != sorted(order)):
+    def const_init(v):
+      return lambda key, shape, dtype=jnp.float32: v * jnp.arange(1, 1 + int(np.prod(shape)), dtype=dtype).reshape(shape) / 10.0
+
+    def call_scan(self, c, x):
+      layers = [getattr(self, f) for f in order]
+      h = jnp.tanh(layers[0](x))
+      g = jax.nn.sigmoid(layers[1](c))
+      if len(layers) > 2:
+        h = h + 0.1 * layers[2](x)
+      c = g * c + (1 - g) * h
+      return c, c * 2.0
+
+    def call_map(self, x):
+      layers = [getattr(self, f) for f in order]
+      y = layers[1](jnp.tanh(layers[0](x)))
+      return y + (0.1 * layers[2](x) if len(layers) > 2 else 0.0)
+    is_scan = tr.startswith('scan')
+    Body = type('Body', (nn.Module,), {'__annotations__': {f: nn.Module for f in order}, '__call__': call_scan if is_scan else call_map})
+
+    def make(cls):
+      return cls(**{f: nn.Dense(D, kernel_init=const_init(float(k + 1)), bias_init=const_init(-float(k + 1))) for k, f in enumerate(sorted(order))})
+    nr = np.random.default_rng(i)
+    xs = jnp.asarray(nr.uniform(-1, 1, (N, D)).astype(np.float32))
+    c0 = jnp.full((D,), 0.25)
+    plain = make(Body)
+    v1 = plain.init(jax.random.key(0), c0, xs[0]) if is_scan else plain.init(jax.random.key(0), xs[0])
+    # per-index variables: slice k is v1 scaled by (1 + k/4)
+    stacked = jax.tree_util.tree_map(lambda a: jnp.stack([a * (1 + k / 4) for k in range(N)]), v1)
+    sl = lambda k: jax.tree_util.tree_map(lambda a: a[k], stacked)  # noqa: E731
+    steps = list(range(N - 1, -1, -1)) if (reverse and is_scan) else list(range(N))
+    if tr == 'scan_broadcast':
+      got = make(nn.scan(Body, variable_broadcast='params', split_rngs={'params': False}, reverse=reverse)).apply(v1, c0, xs)
+      c, ys = c0, [None] * N
+      for k in steps:
+        c, ys[k] = plain.apply(v1, c, xs[k])
+      want = (c, jnp.stack(ys))
+    elif tr == 'scan_axis':
+      got = make(nn.scan(Body, variable_axes={'params': 0}, split_rngs={'params': True}, reverse=reverse)).apply(stacked, c0, xs)
+      c, ys = c0, [None] * N
+      for k in steps:
+        c, ys[k] = plain.apply(sl(k), c, xs[k])
+      want = (c, jnp.stack(ys))
+    elif tr == 'vmap_axis':
+      got = make(nn.vmap(Body, variable_axes={'params': 0}, split_rngs={'params': True})).apply(stacked, xs)
+      want = jnp.stack([plain.apply(sl(k), xs[k]) for k in range(N)])
+    else:
+      got = make(nn.vmap(Body, variable_axes={'params': None}, split_rngs={'params': False})).apply(v1, xs)
+      want = jnp.stack([plain.apply(v1, xs[k]) for k in range(N)])
+    ctx.op('nn.%s(body with attribute modules)' % tr)
+    gl, wl = jax.tree_util.tree_leaves(got), jax.tree_util.tree_leaves(want)
+    ok = len(gl) == len(wl) and all(np.shape(a) == np.shape(b) and np.allclose(a, b, atol=1e-5) for a, b in zip(gl, wl))
+    ctx.check(ok, 'attr_body:%s' % ('scan_vs_loop' if is_scan else 'vmap_vs_stack'), lambda: dict(case=desc))
+
+
 def run(ctx):
+  for i in ctx.indices(48 if ctx.tier == 'quick' else 96, 'attr_body'):
+    run_attr_body(ctx, i, ctx.rng('attr_body', i))
   for i in ctx.indices(24 if ctx.tier == 'quick' else 48, 'readonly_carry'):
     run_readonly_carry(ctx, i, ctx.rng('readonly_carry', i))
   for i in ctx.indices(72 if ctx.tier == 'quick' else 360, 'functional'):
